@@ -173,6 +173,13 @@ pub fn related_history_strategy(max: usize) -> impl Strategy<Value = CalcHistory
                     }
                 }
             }
+            // every third variant is also cut short (its last one to three tokens dropped): the same beginning of a
+            // sentence matched by a shorter pattern of the same rule
+            if k % 3 == 2 {
+                let cut = 1 + (picks[0].1 % 3);
+                let keep = v.line.toks.len().saturating_sub(cut).max(1);
+                v.line.toks.truncate(keep);
+            }
             history.push((v.lang.clone(), v.text(&dec, &thou)));
             if let Some(o) = others.get(k) {
                 history.push(o.clone());
@@ -400,7 +407,7 @@ pub fn regressions() -> Vec<SessionHistory> {
 }
 
 pub fn run(ctx: &Ctx) {
-    ctx.rule("(a) calculator histories: a freshly built long-lived calculator evaluates 1-30 texts drawn from all other generators plus token soup (failing and rule-heavy lines included), then a probe text; in half of the histories the calculator is switched to other configurations through the public setters in between and back before the probe; (a') related histories: the texts before the probe are variants of the probe itself - same sentence, units, currencies, zones and names, operands replaced by 0, 1, 2, 0.5, 12, 31, 60, 100, 1000, 1e9 - mixed with unrelated texts; oracle: status, every slot (None / error text / output / AST value) and the highlight tokens of the probe equal those on a fresh calculator of the same configuration that evaluates only the probe; (b) session histories over 1-3 sessions (built with Session::new() or Session::default()) sharing one calculator: set_text(text of 1-5 lines incl. empty lines, assignments, CRLF; about one op in six sets the session's previous text again, unchanged or with a trailing blank / line separator) + execute_session; oracle: status true, slot count = line count of the text just set, slots = the last |T| slots of a one-shot execute of the concatenation of all texts that session has executed (fresh calculator, fresh session), and also of that concatenation WITHOUT the lines that failed to evaluate (a failed line leaves no trace); non-trivial = (a) history >= 3 texts and the probe yields a value, (b) texts of different line counts on one session and a variable from an earlier text used in a later one");
+    ctx.rule("(a) calculator histories: a freshly built long-lived calculator evaluates 1-30 texts drawn from all other generators plus token soup (failing and rule-heavy lines included), then a probe text; in half of the histories the calculator is switched to other configurations through the public setters in between and back before the probe; (a') related histories: the texts before the probe are variants of the probe itself - same sentence, units, currencies, zones and names, operands replaced by 0, 1, 2, 0.5, 12, 31, 60, 100, 1000, 1e9, some of them cut short by one to three tokens - mixed with unrelated texts; oracle: status, every slot (None / error text / output / AST value) and the highlight tokens of the probe equal those on a fresh calculator of the same configuration that evaluates only the probe; (b) session histories over 1-3 sessions (built with Session::new() or Session::default()) sharing one calculator: set_text(text of 1-5 lines incl. empty lines, assignments, CRLF; about one op in six sets the session's previous text again, unchanged or with a trailing blank / line separator) + execute_session; oracle: status true, slot count = line count of the text just set, slots = the last |T| slots of a one-shot execute of the concatenation of all texts that session has executed (fresh calculator, fresh session), and also of that concatenation WITHOUT the lines that failed to evaluate (a failed line leaves no trace); non-trivial = (a) history >= 3 texts and the probe yields a value, (b) texts of different line counts on one session and a variable from an earlier text used in a later one");
     ctx.assume("lines mentioning now are not generated; execute_session without a preceding set_text is exercised only at the end of a session's life (no assertion beyond not panicking)");
     ctx.run_table(&Sessions, "regressions", regressions(), false);
     let (h, s) = match ctx.tier {
